@@ -582,7 +582,7 @@ EXTRA11 = {
         "C19_actnorm_inverse_float32_error, C19_conditional_normal_sampler_float32_error, C19_spline_denormalisation_float32_error and "
         "C19_batchnorm_forward_float32_error (six rounded operations incl. sqrt and division, by a relative-error calculus) - the regenerated formulas evaluated in "
         "float32 differ from their exact values by at most u(2+u) times the size of the terms (u = 2^-24) when nothing is subnormal; the "
-        "dictionary is tied to the code by a bit-for-bit comparison of exact-rational evaluation with the float32 ActNorm and BatchNorm modules.",
+        "dictionary is tied to the code by a bit-for-bit comparison of exact-rational evaluation with the float32 ActNorm and BatchNorm modules and the conditional normal's sampler.",
  "C20": "sum_except_batch on bool and integer tensors returns the exact row sums.",
 }
 for _pid, _t in EXTRA11.items():
